@@ -1,0 +1,11 @@
+//go:build !verif
+
+// Package verifhook marks the synchronisation boundaries of the secure
+// channel for the scheduling controller of the verification harness.
+//
+// In a normal build Point is an empty function which the compiler inlines
+// away. With the build tag "verif" it calls the installed controller.
+package verifhook
+
+// Point marks a scheduling point. It does nothing.
+func Point(name string) {}
